@@ -73,8 +73,9 @@ def generate_edits_from_text(original_text: str, modified_text: str) -> List[Doc
                     # Check next equal for context (Forward Anchor)
                     if i + 1 < len(diffs) and diffs[i + 1][0] == 0:
                         next_text = diffs[i + 1][1]
-                        # Grab first word or chunk
-                        anchor_target = next_text.split(" ")[0] if " " in next_text else next_text[:20]
+                        # Grab the first word (never a piece that runs across a separator)
+                        first_word = re.match(r"\w+", next_text)
+                        anchor_target = first_word.group(0) if first_word else ""
                         if anchor_target:
                             # Convert to Modification of the following text
                             # Target: "Contract" -> New: "Big Contract"
